@@ -1,6 +1,6 @@
 SPECIFICATION Spec
-CONSTANT MaxLen = 3
-CONSTANT Alpha = "rf"
+CONSTANT MaxLen = 6
+CONSTANT Alpha = "mixed"
 INVARIANT WellFormed
 INVARIANT Forward
 INVARIANT Connected
